@@ -106,7 +106,8 @@ def run(ctx):
     # ------------------------------------------------------------- acquire
     ctx.rule("C02.acquire.new-owner-nhood",
              "SimpleRuntimeContext::acquire: status NEW_OWNER => addToNhood exactly once on every path; "
-             "ALREADY_OWNER => never; FAIL => no normal return (signalConflict) and no addToNhood")
+             "ALREADY_OWNER => never; FAIL => no normal return (signalConflict) and no addToNhood; no path returns without "
+             "tryAcquire / subAcquire / signalConflict")
     for f in one(ctx, fx, CTX + "::acquire"):
         fn = ctx.fn(f)
         site = f["qn"]
@@ -119,6 +120,14 @@ def run(ctx):
             ctx.broken("enum AcquireStatus not found or incomplete: %s" % sorted(enum))
             continue
         add_p = is_call(fn=CTX + "::addToNhood")
+        # no way around the decision: every path through acquire() asks the owner word (tryAcquire), delegates to the
+        # context's own protocol (subAcquire, deterministic executor) or signals a conflict. A "fast path" that returns on
+        # some other evidence (the object is linked into A neighbourhood list, a flag says read-only, ..) lets a second
+        # iteration proceed on an object another one owns.
+        decide = lambda x: x.get("k") == "call" and x.get("name") in ("tryAcquire", "subAcquire", "signalConflict")
+        ctx.ob("C02.acquire.new-owner-nhood", site, not fn.exit_reachable_without(decide),
+               "a path returns from acquire() without tryAcquire / subAcquire / signalConflict: the caller goes on although "
+               "ownership of the object was never established", fn.loc(), "decides", fnkey=f["key"])
         for pos, e in tacq:
             # the variable the status is stored in
             tracked = {S(e)}
